@@ -15,6 +15,7 @@ From Irismod Require Genesis.Nft Genesis.NftProofs.
 From Irismod Require Genesis.Random Genesis.RandomProofs.
 From Irismod Require Genesis.Farm Genesis.FarmProofs.
 From Irismod Require Genesis.Oracle Genesis.OracleProofs.
+From Irismod Require Genesis.Service Genesis.ServiceProofs.
 
 (** ** record *)
 Module RecordC12.
@@ -321,3 +322,53 @@ Theorem oracle_queries_preserved_partial :
 Proof. exact oracle_feeds_preserved_lemma. Qed.
 Print Assumptions oracle_queries_preserved_partial.
 End OracleC12.
+
+(** ** service.  Requests, responses, request queues, earned fees and volumes are documented as
+    dropped; the durable objects are parameters, definitions, bindings (with their indexes by
+    owner / provider and their stored pricing), withdraw addresses and request contexts. *)
+Module ServiceC12.
+Import Genesis.Service Genesis.ServiceProofs.
+
+(** as stated it FAILS: ValidateGenesis rejects every request context that is not PAUSED with a
+    completed batch, so the as-is export of a chain with a running (or completed) context does not
+    validate (known finding service-export-does-not-validate/request-context-not-paused-...) *)
+Theorem service_export_validates_refuted : exists s : state, invb s = true /\ validate (export s) = false.
+Proof. exact service_export_validates_refuted_lemma. Qed.
+Print Assumptions service_export_validates_refuted.
+
+(** ... what does hold: when every request context is paused with a completed batch *)
+Theorem service_export_validates_partial :
+  forall s : state, invb s = true -> quietb s = true -> validate (export s) = true.
+Proof. exact service_export_validates_partial_lemma. Qed.
+Print Assumptions service_export_validates_partial.
+
+(** ... and PrepForZeroHeightGenesis produces exactly such a state from any reachable state *)
+Theorem service_prep_makes_quiet :
+  forall s : state, invb s = true -> invb (prep s) = true /\ quietb (prep s) = true.
+Proof. exact service_prep_lemma. Qed.
+Print Assumptions service_prep_makes_quiet.
+
+(** import of a validated genesis whose bindings parse (provider, owner, pricing) does not panic *)
+Theorem service_import_total_partial :
+  forall g : genesis,
+    validate g = true ->
+    (forall b, In b (g_binds g) -> (0 <=? b_provider b) && (0 <=? b_owner b) && (0 <=? b_pricing b) = true) ->
+    import g <> None.
+Proof. exact service_import_total_partial_lemma. Qed.
+Print Assumptions service_import_total_partial.
+
+Theorem service_export_fixpoint_partial :
+  forall s : state, invb s = true -> quietb s = true ->
+    exists s', import (export s) = Some s' /\ export s' = export s.
+Proof. exact service_export_fixpoint_partial_lemma. Qed.
+Print Assumptions service_export_fixpoint_partial.
+
+Theorem service_queries_preserved_partial :
+  forall s : state, invb s = true -> quietb s = true ->
+    exists s', import (export s) = Some s' /\ queries s' = queries s.
+Proof. exact service_queries_preserved_partial_lemma. Qed.
+Print Assumptions service_queries_preserved_partial.
+
+Example service_nonvacuous : invb wit_s = true /\ quietb wit_s = false /\ quietb (prep wit_s) = true.
+Proof. repeat split; vm_compute; reflexivity. Qed.
+End ServiceC12.
